@@ -284,6 +284,51 @@ theorem render_parse_bytes_real (basis : Array W) (f : File)
   | comment s c => rfl
   | result s r => rfl
 
+/-- a recorded game as the tools write and read it: clean tags, every move of legal shape (for some board size)
+with annotations over `?!'` (at most 65523 of them), comments without `}` of at most 65534 bytes, results among
+the 25 result strings, numbers within `int` -/
+def GameFile (f : File) : Prop :=
+  (∀ t ∈ f.tags, tagSafe t = true) ∧
+  ∀ op ∈ f.ops,
+    match op with
+    | .moveNumber _ n => -(2 ^ 63 : Int) ≤ n ∧ n < 2 ^ 63
+    | .move _ m mods => (∃ size, Notation.LegalShape size m) ∧ mods.all isModifier = true ∧ mods.length ≤ 65523
+    | .comment _ c => c.all (· != 125) = true ∧ c.length ≤ 65534
+    | .result _ r => matchResult r = true
+
+/-- **The property as stated, for recorded games, with the real `FormatMove` / `ParseMove`**: rendering a
+`GameFile` and parsing the bytes again — with or without a byte-order mark — yields the same tags, move numbers,
+moves with annotations, comments and results.  No hypothesis about any function is left. -/
+theorem render_parse_games (basis : Array W) (f : File) (h : GameFile f) :
+    ∃ g, parsePTN (realEnv basis) (render (realEnv basis) f) = .ok g ∧
+      parsePTN (realEnv basis) (0xEF :: 0xBB :: 0xBF :: render (realEnv basis) f) = .ok g ∧
+      g.tags = f.tags ∧ g.ops.map Op.clearSrc = f.ops.map Op.clearSrc := by
+  obtain ⟨htags, hops⟩ := h
+  have hs : renderSafe (realEnv basis) f = true := by
+    simp only [renderSafe, Bool.and_eq_true, List.all_eq_true]
+    refine ⟨htags, fun op hop => ?_⟩
+    have ho := hops op hop
+    cases op with
+    | moveNumber s n =>
+      simp only [opSafe, opData, opShape, opFits, opMove, Bool.and_true, Bool.and_eq_true, decide_eq_true_eq]
+      exact ho
+    | move s m mods =>
+      obtain ⟨⟨size, hsz⟩, hmods, hlen⟩ := ho
+      have hl := formatMove_length_le size m hsz
+      have hfm : (realEnv basis).formatMove m = Tak.PTN.formatMove m false := rfl
+      simp only [opSafe, opData, opShape, opFits, opMove, Bool.and_eq_true, decide_eq_true_eq, hfm, maxScanTokenSize]
+      exact ⟨⟨hmods, by omega⟩, moveSafe_real basis size m hsz⟩
+    | comment s c =>
+      simp only [opSafe, opData, opShape, opFits, opMove, Bool.and_true, Bool.and_eq_true, decide_eq_true_eq,
+        maxScanTokenSize]
+      have h2 := ho.2
+      exact ⟨ho.1, decide_eq_true (by omega)⟩
+    | result s r =>
+      simp only [opSafe, opData, opShape, opFits, opMove, Bool.and_true]
+      exact ho
+  obtain ⟨g, h1, h2, h3, _, h5⟩ := render_parse_tokens (realEnv basis) f hs
+  exact ⟨g, h1, h2, h3, h5⟩
+
 /-- the statement one might hope for — every successfully parsed file re-renders to something that parses to
 the same value.  It is **false** (next theorem); `reparse_stable` is the part that holds. -/
 def render_parse_bytes_statement (env : Env) : Prop :=
@@ -330,6 +375,17 @@ example : ∀ s m mods, Op.move s m mods ∈ exFile2.ops → ∃ size, Notation.
   simp only [exFile2, exFile, List.cons_append, List.nil_append, List.mem_cons, Op.move.injEq, List.mem_nil_iff,
     or_false, reduceCtorEq, false_or] at h
   rcases h with ⟨_, rfl, _⟩ | ⟨_, rfl, _⟩ | ⟨_, rfl, _⟩ | ⟨_, rfl, _⟩ <;> decide
+
+/-- the example record is a `GameFile` -/
+example : GameFile exFile2 := by
+  refine ⟨by decide, ?_⟩
+  intro op hop
+  simp only [exFile2, exFile, List.cons_append, List.nil_append, List.mem_cons, List.mem_nil_iff, or_false] at hop
+  rcases hop with rfl | rfl | rfl | rfl | rfl | rfl | rfl | rfl | rfl | rfl
+  all_goals first
+    | (exact ⟨by decide, by decide⟩)
+    | (exact ⟨⟨3, by decide⟩, by decide, by decide⟩)
+    | (show matchResult _ = true; decide)
 
 /-! #### each clause of `dataSafe` is needed: one-tag / one-op values just outside it (`movesSafe` holds for all
 of them), and what render-then-parse does with them -/
